@@ -29,34 +29,42 @@ Definition sgood (pv : Prop) (s : state) (gas : N) (sr : sres) : Prop :=
 Definition runner_good (runf : runner) : Prop :=
   forall cx acts mem gas s, good (c_static cx = true) s gas (runf cx acts mem gas s).
 
-Lemma R_same : forall pv s gas gas', gas' <= gas -> R pv s gas s gas' 0.
+Ltac Rsplit := unfold good, R; cbn [r_st r_gas r_burnt]; split; [|split; [|split]].
+
+Lemma R_same : forall (pv : Prop) s gas gas', gas' <= gas -> R pv s gas s gas' 0.
 Proof.
-  intros. repeat split; try (apply ext_refl); try assumption; try lia. apply veq_refl.
+  intros. Rsplit.
+  - intro; assumption.
+  - apply ext_refl.
+  - intro W. split; [assumption | lia].
+  - intros _ _. apply veq_refl.
 Qed.
 
-Lemma R_trans : forall pv s g s1 g1 b1 s2 g2 b2,
+Ltac Rsame := unfold sgood, fail, good; cbn [r_st r_gas r_burnt]; apply R_same; try lia.
+
+Lemma R_trans : forall (pv : Prop) s g s1 g1 b1 s2 g2 b2,
   R pv s g s1 g1 b1 -> R pv s1 g1 s2 g2 b2 -> R pv s g s2 g2 (b1 + b2).
 Proof.
-  intros pv s g s1 g1 b1 s2 g2 b2 (A1 & A2 & A3 & A4) (B1 & B2 & B3 & B4). repeat split.
+  intros pv s g s1 g1 b1 s2 g2 b2 (A1 & A2 & A3 & A4) (B1 & B2 & B3 & B4). Rsplit.
   - intro H. specialize (A1 H). specialize (B1 H). lia.
   - eapply ext_trans; eassumption.
-  - apply A3 in H. destruct H as [W _]. apply B3 in W. tauto.
-  - pose proof (A3 H) as [W T]. pose proof (B3 W) as [_ T2]. lia.
+  - intro H. pose proof (A3 H) as [W T]. pose proof (B3 W) as [W2 T2]. split; [assumption | lia].
   - intros Hw Hp. eapply veq_trans; [apply A4 | apply B4]; assumption.
 Qed.
 
 Lemma R_weaken : forall (pv pv' : Prop) s g s' g' b, (pv' -> pv) -> R pv s g s' g' b -> R pv' s g s' g' b.
-Proof. intros pv pv' s g s' g' b H (A & B & C & D). repeat split; try tauto. Qed.
+Proof. intros pv pv' s g s' g' b H (A & B & C & D). Rsplit; try tauto. Qed.
 
-Lemma R_gas : forall pv s g s' g' b g'', g'' <= g' -> R pv s g s' g' b -> R pv s g s' g'' b.
-Proof. intros pv s g s' g' b g'' H (A & B & C & D). repeat split; try tauto. intro K. specialize (A K). lia. Qed.
+Lemma R_gas : forall (pv : Prop) s g s' g' b g'', g'' <= g' -> R pv s g s' g' b -> R pv s g s' g'' b.
+Proof. intros pv s g s' g' b g'' H (A & B & C & D). Rsplit; try tauto. intro K. specialize (A K). lia. Qed.
 
 (* a step on the state alone that keeps total and (when pv) the view *)
-Lemma R_prim : forall pv s g s', ext s s' -> (wf s -> wf s' /\ total s' = total s) ->
+Lemma R_prim : forall (pv : Prop) s g s', ext s s' -> (wf s -> wf s' /\ total s' = total s) ->
   (writes_ok G = true -> pv -> veq s s') -> R pv s g s' g 0.
 Proof.
-  intros pv s g s' E W V. repeat split; try assumption; try lia; try (apply W; assumption).
-  destruct (W H) as [_ T]. lia.
+  intros pv s g s' E W V. Rsplit; try assumption.
+  - intro; lia.
+  - intro H. destruct (W H) as [W1 T]. split; [assumption | lia].
 Qed.
 
 Lemma charge_le : forall c g g', charge c g = Some g' -> g' <= g.
@@ -75,16 +83,16 @@ Lemma get_balance_create_account : forall a b s, get_balance a (create_account b
 Proof.
   intros a b s. unfold create_account. destruct (get_obj b s) as [prev|] eqn:E.
   - rewrite get_balance_set_obj. destruct (addr_eqb a b) eqn:Eb; [|reflexivity].
-    apply addr_eqb_eq in Eb. subst. unfold get_balance. rewrite get_obj_push_j, E. reflexivity.
+    apply addr_eqb_eq in Eb. subst. cbn [a_bal]. unfold get_balance. rewrite E. reflexivity.
   - unfold create_object. rewrite E. rewrite get_balance_set_obj. destruct (addr_eqb a b) eqn:Eb; [|reflexivity].
-    apply addr_eqb_eq in Eb. subst. unfold get_balance. rewrite get_obj_push_j, E. reflexivity.
+    apply addr_eqb_eq in Eb. subst. cbn [a_bal fresh]. unfold get_balance. rewrite E. reflexivity.
 Qed.
 
 Lemma get_balance_get_or_new_any : forall a b s, get_balance a (get_or_new b s) = get_balance a s.
 Proof.
   intros. unfold get_or_new. destruct (get_obj b s) eqn:E; [reflexivity|].
   unfold create_object. rewrite E, get_balance_set_obj. destruct (addr_eqb a b) eqn:Eb; [|reflexivity].
-  apply addr_eqb_eq in Eb. subst. unfold get_balance. rewrite get_obj_push_j, E. reflexivity.
+  apply addr_eqb_eq in Eb. subst. cbn [a_bal fresh]. unfold get_balance. rewrite E. reflexivity.
 Qed.
 
 Lemma get_balance_set_nonce : forall a b n s, get_balance a (set_nonce b n s) = get_balance a s.
@@ -97,26 +105,26 @@ Qed.
 
 (* ---- frames ------------------------------------------------------------------ *)
 
-Lemma run_code_good : forall runf cx c gas s, runner_good runf -> good (c_static cx = true) s gas (run_code runf cx c gas s).
+Lemma run_code_good : forall runf cx c gas s, runner_good runf -> good (c_static cx = true) s gas (run_code P runf cx c gas s).
 Proof.
   intros runf cx c gas s H. unfold run_code. destruct (code_acts P c).
-  - destruct (N.eqb (code_len P c) 0); [apply R_same; lia | apply H].
+  - destruct (N.eqb (code_len P c) 0); [Rsame | apply H].
   - apply H.
 Qed.
 
-Lemma finish_good : forall pv s gas r, good pv s gas r -> good pv s gas (finish (snapshot s) r).
+Lemma finish_good : forall (pv : Prop) s gas r, good pv s gas r -> good pv s gas (finish (snapshot s) r).
 Proof.
   intros pv s gas r (A & B & C & D). unfold finish.
   assert (forall g ret, (stipend_ok G = true -> g <= gas) -> good pv s gas (mkRes (r_status r) g (revert_to (snapshot s) (r_st r)) ret 0)) as K.
-  { intros g ret Hg. pose proof (revert_restores s (r_st r) B) as [J _]. repeat split; cbn [r_st r_gas r_burnt].
+  { intros g ret Hg. pose proof (revert_restores s (r_st r) B) as [J _]. Rsplit.
     - assumption.
     - apply ext_revert; [apply ext_refl | assumption].
-    - apply wf_revert. apply C. assumption.
-    - rewrite N.add_0_r. apply seq_total; [apply wf_revert; apply C; assumption | assumption | assumption].
-    - intros _ _. apply veq_sym. apply seq_veq. apply seq_sym. assumption. }
-  destruct (r_status r) eqn:E; try (repeat split; assumption).
-  - specialize (K (r_gas r) (r_ret r) A). rewrite E in K. exact K.
-  - specialize (K 0 0). rewrite E in K. apply K. intro. lia.
+    - intro W. split; [apply wf_revert; apply C; assumption|].
+      rewrite N.add_0_r. apply seq_total; [apply wf_revert; apply C; assumption | assumption | assumption].
+    - intros _ _. apply veq_sym. apply seq_veq. assumption. }
+  destruct (r_status r) eqn:E; try (Rsplit; assumption).
+  - exact (K (r_gas r) (r_ret r) A).
+  - apply (K 0 0). intro. lia.
 Qed.
 
 (* the first statement of the property: a frame that ends in an error or a revert
@@ -130,7 +138,7 @@ Qed.
 Lemma finish_status : forall n r, r_status (finish n r) = r_status r.
 Proof. intros. unfold finish. destruct (r_status r) eqn:E; cbn [r_status]; congruence. Qed.
 
-Lemma good_R_trans : forall pv s g s1 r, R pv s g s1 g 0 -> good pv s1 g r -> good pv s g r.
+Lemma good_R_trans : forall (pv : Prop) s g s1 r, R pv s g s1 g 0 -> good pv s1 g r -> good pv s g r.
 Proof.
   intros pv s g s1 r H K. unfold good in *. replace (r_burnt r) with (0 + r_burnt r) by lia.
   eapply R_trans; eassumption.
@@ -143,27 +151,27 @@ Lemma call_frame_good : forall runf k cx to gas value s, runner_good runf ->
   good (call_pv k cx value) s gas (call_frame G P runf k cx to gas value s).
 Proof.
   intros runf k cx to gas value s H. unfold call_frame.
-  destruct (N.ltb (p_depth G) (c_depth cx)); [apply R_same; lia|].
+  destruct (N.ltb (p_depth G) (c_depth cx)); [Rsame|].
   destruct k.
   - (* Call *)
-    destruct (can_transfer (c_self cx) value s) eqn:C; cbn [negb]; [|apply R_same; lia].
+    destruct (can_transfer (c_self cx) value s) eqn:C; cbn [negb]; [|Rsame].
     apply finish_good.
     set (s1 := if exist to s then s else create_account to s).
     assert (R (call_pv KCall cx value) s gas s1 gas 0) as R1.
-    { subst s1. destruct (exist to s) eqn:Ex; [apply R_same; lia|].
+    { subst s1. destruct (exist to s) eqn:Ex; [Rsame|].
       apply R_prim; [apply ext_create_account | | ].
       - intro W. split; [apply wf_create_account; assumption | apply total_create_account; assumption].
       - intros _ _. apply veq_create_account_new. assumption. }
     assert (can_transfer (c_self cx) value s1 = true) as C1.
     { subst s1. destruct (exist to s); [assumption|]. unfold can_transfer in *. rewrite get_balance_create_account. assumption. }
     eapply good_R_trans; [exact R1|].
-    eapply good_R_trans.
+    apply (good_R_trans _ _ _ (transfer (c_self cx) to value s1)).
     + apply R_prim; [apply ext_transfer | | ].
       * intro W. split; [apply wf_transfer; assumption | apply total_transfer; assumption].
       * intros _ [_ Hv]. rewrite (Hv eq_refl). apply veq_transfer_zero.
     + eapply R_weaken; [|apply run_code_good; assumption]. cbn [c_static]. intros [[Hs|Hs] _]; [assumption | discriminate].
   - (* CallCode *)
-    destruct (can_transfer (c_self cx) value s) eqn:C; cbn [negb]; [|apply R_same; lia].
+    destruct (can_transfer (c_self cx) value s) eqn:C; cbn [negb]; [|Rsame].
     apply finish_good. eapply R_weaken; [|apply run_code_good; assumption]. cbn [c_static]. intros [[Hs|Hs] _]; [assumption | discriminate].
   - (* DelegateCall *)
     apply finish_good. eapply R_weaken; [|apply run_code_good; assumption]. cbn [c_static]. intros [[Hs|Hs] _]; [assumption | discriminate].
@@ -177,9 +185,9 @@ Proof.
   intros runf k cx to gas value s r H Hr Hst. subst r. unfold call_frame in *.
   destruct (N.ltb (p_depth G) (c_depth cx)); [apply jeq_refl|].
   assert (forall cx' c s2, ext s s2 ->
-            r_status (finish (snapshot s) (run_code runf cx' c gas s2)) = Failed \/
-            r_status (finish (snapshot s) (run_code runf cx' c gas s2)) = Reverted ->
-            jeq (r_st (finish (snapshot s) (run_code runf cx' c gas s2))) s) as K.
+            r_status (finish (snapshot s) (run_code P runf cx' c gas s2)) = Failed \/
+            r_status (finish (snapshot s) (run_code P runf cx' c gas s2)) = Reverted ->
+            jeq (r_st (finish (snapshot s) (run_code P runf cx' c gas s2))) s) as K.
   { intros cx' c s2 E Hs. rewrite finish_status in Hs. apply finish_restores; [|assumption].
     eapply ext_trans; [exact E|]. apply (run_code_good runf cx' c gas s2 H). }
   destruct k.
@@ -196,8 +204,8 @@ Lemma create_frame_good : forall runf cx init gas value address s, runner_good r
   good False s gas (create_frame G P runf cx init gas value address s).
 Proof.
   intros runf cx init gas value address s H. unfold create_frame.
-  destruct (N.ltb (p_depth G) (c_depth cx)); [apply R_same; lia|].
-  destruct (can_transfer (c_self cx) value s) eqn:C; cbn [negb]; [|apply R_same; lia].
+  destruct (N.ltb (p_depth G) (c_depth cx)); [Rsame|].
+  destruct (can_transfer (c_self cx) value s) eqn:C; cbn [negb]; [|Rsame].
   set (s1 := set_nonce (c_self cx) (get_nonce (c_self cx) s + 1) s).
   assert (forall g, R False s g s1 g 0) as R1.
   { intro g. apply R_prim; [apply ext_set_nonce | | tauto].
@@ -213,7 +221,7 @@ Proof.
       subst s4. rewrite total_transfer; [| assumption |].
       + subst s3. rewrite total_set_nonce by (apply wf_create_account; assumption). apply total_create_account. assumption.
       + unfold can_transfer in *. subst s3 s2 s1. rewrite get_balance_set_nonce, get_balance_create_account, get_balance_set_nonce. assumption. }
-  set (r := run_code runf (mkCtx address (c_self cx) value (c_static cx) (c_depth cx + 1)) init gas s4).
+  set (r := run_code P runf (mkCtx address (c_self cx) value (c_static cx) (c_depth cx + 1)) init gas s4).
   assert (good False s gas r) as Gr.
   { eapply good_R_trans; [apply R1|]. eapply good_R_trans; [apply R2|].
     eapply R_weaken; [|apply run_code_good; assumption]. tauto. }
@@ -221,10 +229,10 @@ Proof.
   { eapply ext_trans; [apply (R2 gas)|]. apply (run_code_good runf _ init gas s4 H). }
   assert (forall st g ret, (stipend_ok G = true -> g <= gas) -> good False s gas (mkRes st g (revert_to (snapshot s1) (r_st r)) ret 0)) as K.
   { intros st g ret Hg. destruct Gr as (A & B & Cc & D).
-    pose proof (revert_restores s1 (r_st r) E1) as [J _]. repeat split; cbn [r_st r_gas r_burnt]; try tauto.
+    pose proof (revert_restores s1 (r_st r) E1) as [J _]. Rsplit; try tauto.
     - apply ext_revert; [apply (R1 gas) | assumption].
-    - apply wf_revert. apply Cc. assumption.
-    - rewrite N.add_0_r. destruct (R1 gas) as (_ & _ & T1 & _). destruct (T1 H0) as [W1 T1'].
+    - intro W0. split; [apply wf_revert; apply Cc; assumption|].
+      rewrite N.add_0_r. destruct (R1 gas) as (_ & _ & T1 & _). destruct (T1 W0) as [W1 T1'].
       rewrite (seq_total _ s1); [lia | apply wf_revert; apply Cc; assumption | assumption | assumption]. }
   destruct (r_status r) eqn:Est.
   - (* Done: code deposit *)
@@ -250,7 +258,7 @@ Proof.
   set (s1 := set_nonce (c_self cx) (get_nonce (c_self cx) s + 1) s) in *.
   destruct (negb (N.eqb (get_nonce address s1) 0) || negb (N.eqb (get_code address s1) 0)); [right; apply jeq_refl|].
   set (s4 := transfer (c_self cx) address value (set_nonce address 1 (create_account address s1))) in *.
-  set (r := run_code runf (mkCtx address (c_self cx) value (c_static cx) (c_depth cx + 1)) init gas s4) in *.
+  set (r := run_code P runf (mkCtx address (c_self cx) value (c_static cx) (c_depth cx + 1)) init gas s4) in *.
   assert (ext s1 (r_st r)) as E1.
   { eapply ext_trans; [|apply (run_code_good runf _ init gas s4 H)].
     eapply ext_trans; [apply ext_create_account|]. eapply ext_trans; [apply ext_set_nonce | apply ext_transfer]. }
@@ -287,38 +295,50 @@ Lemma R_nonstatic : forall cx w s g s' g' b,
   (stipend_ok G = true -> g' <= g) -> ext s s' -> (wf s -> wf s' /\ total s' + b = total s) ->
   R (c_static cx = true) s g s' g' b.
 Proof.
-  intros cx w s g s' g' b E Hw A B C. repeat split; try tauto.
+  intros cx w s g s' g' b E Hw A B C. Rsplit; try tauto.
   intros K1 K2. rewrite K2, (Hw K1) in E. discriminate.
 Qed.
 
-Lemma fail_good : forall pv s gas g, g <= gas -> sgood pv s gas (fail g s).
+Lemma fail_good : forall (pv : Prop) s gas g, g <= gas -> sgood pv s gas (fail g s).
 Proof. intros. unfold fail, sgood, good. cbn [r_st r_gas r_burnt]. apply R_same. assumption. Qed.
 
 Lemma ext_sstore_gas : forall cur orig v s, ext s (snd (sstore_gas G cur orig v s)).
 Proof.
   intros. unfold sstore_gas.
-  repeat match goal with |- context [if ?c then _ else _] => destruct c end; cbn [snd];
-    repeat (first [apply ext_refl | apply ext_add_refund | apply ext_sub_refund
-                  | eapply ext_trans; [apply ext_add_refund|] | eapply ext_trans; [apply ext_sub_refund|] ]).
+  destruct (N.eqb cur v); [apply ext_refl|].
+  destruct (N.eqb orig cur).
+  { destruct (N.eqb orig 0); cbn [snd]; [apply ext_refl|]. destruct (N.eqb v 0); [apply ext_add_refund | apply ext_refl]. }
+  cbn [snd].
+  match goal with |- ext s (if _ then (if _ then add_refund _ ?x else add_refund _ ?x) else ?x) => assert (ext s x) as E1 end.
+  { destruct (negb (N.eqb orig 0)); [|apply ext_refl].
+    destruct (N.eqb cur 0); [apply ext_sub_refund|]. destruct (N.eqb v 0); [apply ext_add_refund | apply ext_refl]. }
+  destruct (N.eqb orig v); [|exact E1].
+  destruct (N.eqb orig 0); (eapply ext_trans; [exact E1 | apply ext_add_refund]).
 Qed.
 
 Lemma accts_sstore_gas : forall cur orig v s, accts (snd (sstore_gas G cur orig v s)) = accts s.
 Proof.
   intros. unfold sstore_gas.
-  repeat match goal with |- context [if ?c then _ else _] => destruct c end; reflexivity.
+  destruct (N.eqb cur v); [reflexivity|].
+  destruct (N.eqb orig cur).
+  { destruct (N.eqb orig 0); cbn [snd]; [reflexivity|]. destruct (N.eqb v 0); reflexivity. }
+  cbn [snd].
+  destruct (N.eqb orig v), (N.eqb orig 0), (N.eqb cur 0), (N.eqb v 0); reflexivity.
 Qed.
 
-Lemma epilogue_good : forall pv req ok mem gas s b s0 g0,
+Lemma epilogue_good : forall (pv : Prop) req ok mem gas s b s0 g0,
   R pv s0 g0 s gas b -> sgood pv s0 g0 (epilogue G req ok mem gas s b).
 Proof.
   intros pv req ok mem gas s b s0 g0 H. unfold epilogue.
   assert (forall g, g <= gas -> R pv s0 g0 s g b) as K by (intros; eapply R_gas; eassumption).
+  assert (forall g st, g <= gas -> sgood pv s0 g0 (SHalt (mkRes st g s 0 b))) as K2.
+  { intros. unfold sgood, good. cbn [r_st r_gas r_burnt]. apply K. assumption. }
   destruct req.
-  - destruct (charge (g_push G + g_jumpi G) gas) as [g1|] eqn:C1; [|apply K; lia].
+  - destruct (charge (g_push G + g_jumpi G) gas) as [g1|] eqn:C1; [|apply K2; lia].
     apply charge_le in C1. destruct ok.
-    + destruct (charge (g_jumpdest G) g1) as [g2|] eqn:C2; [apply charge_le in C2|]; apply K; lia.
-    + destruct (charge (g_push G + g_push G + g_revert G) g1) as [g2|] eqn:C2; [apply charge_le in C2|]; apply K; lia.
-  - destruct (charge (g_pop G) gas) as [g1|] eqn:C1; [apply charge_le in C1|]; apply K; lia.
+    + destruct (charge (g_jumpdest G) g1) as [g2|] eqn:C2; [apply charge_le in C2; cbn [sgood]; apply K; lia | apply K2; lia].
+    + destruct (charge (g_push G + g_push G + g_revert G) g1) as [g2|] eqn:C2; [apply charge_le in C2|]; apply K2; lia.
+  - destruct (charge (g_pop G) gas) as [g1|] eqn:C1; [apply charge_le in C1; cbn [sgood]; apply K; lia | apply K2; lia].
 Qed.
 
 Lemma call_gas_le : forall avail base g temp, call_gas G avail base g = Some temp ->
@@ -379,7 +399,7 @@ Proof.
     pose proof (call_frame_good runf k cx to given v' s H) as Gf.
     set (r := call_frame G P runf k cx to given v' s) in *.
     assert (R (c_static cx = true) s gas (r_st r) (g3 + r_gas r) (r_burnt r)) as Rr.
-    { destruct Gf as (A & B & C & D). repeat split; try tauto.
+    { destruct Gf as (A & B & C & D). Rsplit; try tauto.
       - intro Hs. specialize (A Hs). unfold stipend_ok in Hs. apply N.leb_le in Hs.
         assert (N.eqb v' 0 = false -> p_callvalue G <= base) as Hb.
         { intro Hv. subst base v' hasv. destruct k; cbn in Hv |- *; try discriminate; rewrite Hv; lia. }
@@ -447,27 +467,27 @@ Proof.
       apply (R_nonstatic cx (w_selfdestruct G)); [assumption | apply writes_ok_selfdestruct | intro; lia | assumption | ].
       intro W. unfold wf, total. rewrite A1. split; [assumption | lia].
   - (* NOP *)
-    destruct (charge (n * g_jumpdest G) gas) as [g1|] eqn:C1; [apply charge_le in C1; apply R_same; lia | apply fail_good; lia].
+    destruct (charge (n * g_jumpdest G) gas) as [g1|] eqn:C1; [apply charge_le in C1; Rsame | apply fail_good; lia].
   - (* STOP *)
-    destruct (charge (g_stop G) gas) as [g1|] eqn:C1; [apply charge_le in C1; apply R_same; cbn [r_gas]; lia | apply fail_good; lia].
+    destruct (charge (g_stop G) gas) as [g1|] eqn:C1; [apply charge_le in C1; Rsame | apply fail_good; lia].
   - (* RETURN *)
     destruct (N.eqb c 0).
-    + destruct (charge (2 * g_push G + g_return G) gas) as [g1|] eqn:C1; [apply charge_le in C1; apply R_same; cbn [r_gas]; lia | apply fail_good; lia].
+    + destruct (charge (2 * g_push G + g_return G) gas) as [g1|] eqn:C1; [apply charge_le in C1; Rsame | apply fail_good; lia].
     + destruct (charge (3 * g_push G + g_codecopy G) gas) as [g1|] eqn:C1; [apply charge_le in C1 | apply fail_good; lia].
       destruct (if N.eqb (code_len P c) 0 then (0, mem) else mem_expand G mem (words (code_len P c))) as [mc mem'].
       destruct (charge (mc + words (code_len P c) * p_copy G) g1) as [g2|] eqn:C2; [apply charge_le in C2 | apply fail_good; lia].
-      destruct (charge (2 * g_push G + g_return G) g2) as [g3|] eqn:C3; [apply charge_le in C3; apply R_same; cbn [r_gas]; lia | apply fail_good; lia].
+      destruct (charge (2 * g_push G + g_return G) g2) as [g3|] eqn:C3; [apply charge_le in C3; Rsame | apply fail_good; lia].
   - (* REVERT *)
-    destruct (charge (2 * g_push G + g_revert G) gas) as [g1|] eqn:C1; [apply charge_le in C1; apply R_same; cbn [r_gas]; lia | apply fail_good; lia].
+    destruct (charge (2 * g_push G + g_revert G) gas) as [g1|] eqn:C1; [apply charge_le in C1; Rsame | apply fail_good; lia].
   - apply fail_good. lia.
 Qed.
 
 Theorem run_good : forall fuel, runner_good (run G P fuel).
 Proof.
   induction fuel as [|f IH]; intros cx acts mem gas s; cbn [run].
-  - apply R_same. cbn [r_gas]. lia.
+  - Rsame.
   - destruct acts as [|a rest].
-    + destruct (charge (g_stop G) gas) as [g1|] eqn:C1; [apply charge_le in C1|]; apply R_same; cbn [r_gas]; lia.
+    + destruct (charge (g_stop G) gas) as [g1|] eqn:C1; [apply charge_le in C1|]; Rsame.
     + pose proof (step_good (run G P f) cx a mem gas s IH) as Hs.
       destruct (step G P (run G P f) cx a mem gas s) as [mem' gas' s' b | r]; [|exact Hs].
       cbn [sgood] in Hs. unfold good, add_burnt. cbn [r_st r_gas r_burnt].
@@ -475,3 +495,101 @@ Proof.
 Qed.
 
 End Inv.
+
+(* ---- the statements, for the interpreter [run] at any fuel -------------------- *)
+
+Lemma failed_call_no_trace : forall G P fuel k cx to gas value s r,
+  r = call_frame G P (run G P fuel) k cx to gas value s ->
+  r_status r = Failed \/ r_status r = Reverted -> seq (r_st r) s.
+Proof.
+  intros G P fuel k cx to gas value s r Hr Hs.
+  apply (call_frame_failed G P (run G P fuel) k cx to gas value s r (run_good G P fuel) Hr Hs).
+Qed.
+
+Lemma failed_create_no_trace : forall G P fuel cx init gas value address s r,
+  r = create_frame G P (run G P fuel) cx init gas value address s ->
+  r_status r = Failed \/ r_status r = Reverted ->
+  seq (r_st r) s \/ seq (r_st r) (set_nonce (c_self cx) (get_nonce (c_self cx) s + 1) s).
+Proof.
+  intros G P fuel cx init gas value address s r Hr Hs.
+  destruct (create_frame_failed G P (run G P fuel) cx init gas value address s r (run_good G P fuel) Hr Hs) as [[H _]|[H _]]; [left | right]; exact H.
+Qed.
+
+Lemma static_pure : forall G P fuel, writes_ok G = true ->
+  (forall cx acts mem gas s, c_static cx = true -> veq s (r_st (run G P fuel cx acts mem gas s))) /\
+  (forall k cx to gas value s, c_static cx = true \/ k = KStatic -> (k = KCall -> value = 0) ->
+     veq s (r_st (call_frame G P (run G P fuel) k cx to gas value s))).
+Proof.
+  intros G P fuel Hw. split.
+  - intros cx acts mem gas s Hs. destruct (run_good G P fuel cx acts mem gas s) as (_ & _ & _ & D). apply D; assumption.
+  - intros k cx to gas value s H1 H2.
+    destruct (call_frame_good G P (run G P fuel) k cx to gas value s (run_good G P fuel)) as (_ & _ & _ & D).
+    apply D; [assumption | split; assumption].
+Qed.
+
+Lemma value_conserved : forall G P fuel,
+  (forall cx acts mem gas s, wf s -> let r := run G P fuel cx acts mem gas s in wf (r_st r) /\ total (r_st r) + r_burnt r = total s) /\
+  (forall k cx to gas value s, wf s -> let r := call_frame G P (run G P fuel) k cx to gas value s in
+     wf (r_st r) /\ total (r_st r) + r_burnt r = total s) /\
+  (forall cx init gas value address s, wf s -> let r := create_frame G P (run G P fuel) cx init gas value address s in
+     wf (r_st r) /\ total (r_st r) + r_burnt r = total s).
+Proof.
+  intros G P fuel. split; [|split].
+  - intros cx acts mem gas s W. destruct (run_good G P fuel cx acts mem gas s) as (_ & _ & C & _). apply C. exact W.
+  - intros k cx to gas value s W.
+    destruct (call_frame_good G P (run G P fuel) k cx to gas value s (run_good G P fuel)) as (_ & _ & C & _). apply C. exact W.
+  - intros cx init gas value address s W.
+    destruct (create_frame_good G P (run G P fuel) cx init gas value address s (run_good G P fuel)) as (_ & _ & C & _). apply C. exact W.
+Qed.
+
+Lemma gas_bounded : forall G P fuel, stipend_ok G = true ->
+  (forall cx acts mem gas s, r_gas (run G P fuel cx acts mem gas s) <= gas) /\
+  (forall k cx to gas value s, r_gas (call_frame G P (run G P fuel) k cx to gas value s) <= gas) /\
+  (forall cx init gas value address s, r_gas (create_frame G P (run G P fuel) cx init gas value address s) <= gas).
+Proof.
+  intros G P fuel Hs. split; [|split].
+  - intros cx acts mem gas s. destruct (run_good G P fuel cx acts mem gas s) as (A & _). apply A. exact Hs.
+  - intros k cx to gas value s.
+    destruct (call_frame_good G P (run G P fuel) k cx to gas value s (run_good G P fuel)) as (A & _). apply A. exact Hs.
+  - intros cx init gas value address s.
+    destruct (create_frame_good G P (run G P fuel) cx init gas value address s (run_good G P fuel)) as (A & _). apply A. exact Hs.
+Qed.
+
+Lemma table_ok_split : forall G, table_ok G = true -> writes_ok G = true /\ stipend_ok G = true.
+Proof. intros G H. unfold table_ok in H. apply andb_prop in H. exact H. Qed.
+
+(* the whole property in one statement *)
+Definition C16_full : Prop :=
+  forall G P fuel, table_ok G = true ->
+    (* failed frames leave no trace *)
+    (forall k cx to gas value s r, r = call_frame G P (run G P fuel) k cx to gas value s ->
+       r_status r = Failed \/ r_status r = Reverted -> seq (r_st r) s) /\
+    (forall cx init gas value address s r, r = create_frame G P (run G P fuel) cx init gas value address s ->
+       r_status r = Failed \/ r_status r = Reverted ->
+       seq (r_st r) s \/ seq (r_st r) (set_nonce (c_self cx) (get_nonce (c_self cx) s + 1) s)) /\
+    (* static calls change nothing *)
+    (forall cx acts mem gas s, c_static cx = true -> veq s (r_st (run G P fuel cx acts mem gas s))) /\
+    (forall k cx to gas value s, c_static cx = true \/ k = KStatic -> (k = KCall -> value = 0) ->
+       veq s (r_st (call_frame G P (run G P fuel) k cx to gas value s))) /\
+    (* value is conserved up to the reported burn, in a whole transaction too *)
+    (forall origin to gas value s, wf s -> let r := tx_call G P fuel origin to gas value s in
+       total (r_st r) + r_burnt r = total s) /\
+    (forall origin init gas value s, wf s -> let r := tx_create G P fuel origin init gas value s in
+       total (r_st r) + r_burnt r = total s) /\
+    (* gas *)
+    (forall cx acts mem gas s, r_gas (run G P fuel cx acts mem gas s) <= gas) /\
+    (forall k cx to gas value s, r_gas (call_frame G P (run G P fuel) k cx to gas value s) <= gas) /\
+    (forall cx init gas value address s, r_gas (create_frame G P (run G P fuel) cx init gas value address s) <= gas).
+
+Lemma c16_full : C16_full.
+Proof.
+  intros G P fuel Ht. destruct (table_ok_split G Ht) as [Hw Hs].
+  destruct (static_pure G P fuel Hw) as [S1 S2].
+  destruct (value_conserved G P fuel) as (V1 & V2 & V3).
+  destruct (gas_bounded G P fuel Hs) as (G1 & G2 & G3).
+  refine (conj _ (conj _ (conj S1 (conj S2 (conj _ (conj _ (conj G1 (conj G2 G3)))))))).
+  - intros k cx to gas value s r Hr Hst. eapply failed_call_no_trace; eassumption.
+  - intros cx init gas value address s r Hr Hst. eapply failed_create_no_trace; eassumption.
+  - intros origin to gas value s W. apply (V2 KCall (origin_ctx origin) to gas value s W).
+  - intros origin init gas value s W. apply (V3 (origin_ctx origin) init gas value (Cr origin (get_nonce origin s)) s W).
+Qed.
